@@ -21,6 +21,7 @@ inductive Sys
   | close (fd : Nat)
   | unlink (p : Path)
   | rename (src dst : Path)
+  | link (src dst : Path)        -- `link(2)`: `dst` becomes a second name of the inode of `src` (fails if `dst` exists)
   | mark                         -- `write()` / `write_shell_update()` has returned: a checkpoint is complete
 deriving Repr, DecidableEq
 
@@ -80,6 +81,10 @@ def apply (s0 : FSt) (op : Sys) : FSt :=
       let link' := (dst, i) :: s.link.filter (fun kv => kv.1 != src && kv.1 != dst)
       { s with link := link', installed := if dst == ck then some (contentOf s i) else s.installed }
     | none => s
+  | .link src dst =>
+    match inoOf s src, inoOf s dst with
+    | some i, none => { s with link := (dst, i) :: s.link }
+    | _, _ => s
   | .mark =>
     match inoOf s ck with
     | some i => { s with installed := some (contentOf s i) }
@@ -127,6 +132,7 @@ def opOK (s : FSt) : Sys → Bool
       match inoOf s src with
       | some i => ((s.inodes[i]?).map (·.writers)).getD 0 == 0 && !(s.fds.any (fun f => f.2.1 == i && f.2.2))
       | none => true)
+  | .link _ _ => false           -- an atomic writer never gives a file on these paths a second name
   | .mark => (inoOf s ck).isSome
 
 def atomicGo (s : FSt) : List Sys → Bool
